@@ -390,6 +390,9 @@ type pollIn struct {
 	FactoryErr *string     `json:"factoryErr"`
 	UseList    bool        `json:"useList"` // put the scripted reader into StatusReaders instead of DefaultStatusReader
 	Polls      []jpoll     `json:"polls"`
+	// the caller's context is a WithCancelCause context and is cancelled with a cause of its own (ctx.Err() is still
+	// context.Canceled; context.Cause(ctx) is not)
+	Cause bool `json:"cause,omitempty"`
 }
 
 // scriptMapper answers RESTMapping from the script; nothing else is used by the engine.
@@ -506,6 +509,10 @@ func runPoll(in pollIn) (out map[string]any) {
 		}
 	}()
 	ctx, cancel := context.WithCancel(context.Background())
+	if in.Cause {
+		c2, cancelCause := context.WithCancelCause(context.Background())
+		ctx, cancel = c2, func() { cancelCause(errors.New("the caller gave up (custom cause)")) }
+	}
 	defer cancel()
 	sr := &scriptReader{polls: in.Polls, k: -1, cancel: cancel, reads: map[int]map[object.ObjMetadata]jread{}}
 	for k, p := range in.Polls {
@@ -583,7 +590,7 @@ var c17Scopes = [][3]string{{"apps", "Deployment", "ns"}, {"", "Pod", "ns"}, {""
 
 // genPollCase builds one script. mode: 0 plain run to exhaustion; 1 sync disturbance; 2 read disturbance; 3 setup error; 4 mis-identified status
 func genPollCase(rng *proto.Rng, nIDs, nPolls, mode int) pollIn {
-	in := pollIn{IDs: []jid{}, Scopes: c17Scopes, UseList: rng.Bool(), Polls: []jpoll{}}
+	in := pollIn{IDs: []jid{}, Scopes: c17Scopes, UseList: rng.Bool(), Polls: []jpoll{}, Cause: rng.Chance(1, 3)}
 	perm := []int{0, 1, 2, 3}
 	for i := len(perm) - 1; i > 0; i-- {
 		j := rng.Intn(i + 1)
@@ -1192,7 +1199,7 @@ func runPollCache(in pollCacheIn) (out map[string]any) {
 	)
 	rd := &blockingReader{blockAt: in.BlockAt, wrap: in.Wrap, reached: make(chan struct{})}
 	poller := polling.NewStatusPoller(rd, mapper, polling.Options{})
-	ctx, cancel := context.WithCancel(context.Background())
+	ctx, cancel := ctxWithCause()
 	defer cancel()
 	if in.End == "deadline" {
 		var c2 context.CancelFunc
